@@ -55,3 +55,7 @@ package utils
 //@   props C20
 //@   ensures [no-measurement] !r.hasMeasurement
 //@   modifies r.hasMeasurement, heap(atomic.Int64.v)
+
+//@ func (r *RTTStats) UpdateRTT
+//@   trusted RTT smoothing arithmetic (RFC 9002 5.3); no claimed clause depends on the values, only on which state it may write
+//@   modifies r.hasMeasurement, heap(atomic.Int64.v)
